@@ -23,6 +23,8 @@ type C12Case struct {
 	Offenders  []C12Offender
 	Family     string
 	Note       string
+	// NestedOrder: order of nested_type (map entries interleaved) imposed on the built descriptors
+	NestedOrder []C12NestedOrder
 }
 
 type c12Frag struct {
@@ -779,6 +781,224 @@ func C12Catalogue(rng *rand.Rand, tier string) []*C12Case {
 			c.Rule, c.Note = "", r.ID
 		}
 		out = append(out, c)
+	}
+	return out
+}
+
+// ---- nested offenders × map fields of the enclosing messages ---------------------------------------
+//
+// protoc records the synthetic "<Field>Entry" message of a map field in nested_type at the point where
+// the map field is declared, interleaved with the nested messages the user wrote:
+//
+//     message Profile {
+//       map<string, string> labels = 1;          // nested_type[0] = LabelsEntry
+//       message Settings { ... }                 // nested_type[1] = Settings
+//       Settings settings = 2;
+//     }
+//
+// A validator that walks msg.Messages must find a rule broken in Settings whatever the position of the
+// entries. The spec (spec.go) has no notion of declaration order between fields and nested messages and
+// descbuild.go always emits the entries first, so the order is imposed on the built descriptors
+// afterwards (C12NestedOrder, applied by c12Gen). Shapes: the entry before / after / on both sides of /
+// between the nested declarations, at depth 1 (Wrap.ZqBad) and depth 2 (Wrap.Mid.ZqBad) with the map on
+// the outer, the inner or both enclosing messages.
+
+// C12NestedOrder fixes the order of nested_type of one message (simple names, map entries included);
+// names that are not listed keep their relative order behind the listed ones.
+type C12NestedOrder struct {
+	Msg   string   `json:"msg"`   // fully-qualified message name
+	Order []string `json:"order"` // simple names of its nested types
+}
+
+var c12MapShapes = []string{
+	"d1-map-before", "d2-outer-before", "d2-inner-before", // every rule, quick tier
+	"d1-map-after", "d1-map-around", "d1-map-mid", "d2-both-before", "d2-outer-after", "d2-inner-around",
+}
+
+func c12MapField(which int, pkg string) *Field {
+	switch which {
+	case 0:
+		return F("labels", 101, "string", MapOf("string"))
+	case 1:
+		return F("by_num", 102, "", Msg(pkg+".Res"), MapOf("int32"))
+	case 2:
+		return F("tags", 103, "int64", MapOf("string"))
+	default:
+		return F("more_flags", 104, "bool", MapOf("uint64"))
+	}
+}
+
+// c12AssembleMap places a fragment in a nested message whose enclosing message(s) declare map fields.
+func c12AssembleMap(id, shape, surround string, rule c12Rule) *C12Case {
+	pkg := id + ".v1"
+	gp := fmt.Sprintf("verifgen/%s;%s", id, id)
+	deep := shape[:2] == "d2"
+	scope := pkg + ".Wrap"
+	if deep {
+		scope = pkg + ".Wrap.Mid"
+	}
+	q := func(n string) string {
+		if n == "" {
+			return pkg + ".Res"
+		}
+		return scope + "." + n
+	}
+	fr := rule.Build(q)
+	for _, m := range fr.RPCs {
+		if m.Out == "" {
+			m.Out = pkg + ".Res"
+		}
+	}
+	main := &File{Path: id + "/a.proto", Package: pkg, GoPackage: gp, Generate: true}
+	main.Messages = []*Message{M("Req", F("id", 1, "string")), M("Res", F("ok", 1, "bool"))}
+	svc := Svc("Api", "/api", RPC("Ping", pkg+".Req", pkg+".Res", "POST", "/ping"))
+	var after []*Message
+	if surround == "rich" {
+		ms, es, rpcs := c12Rich(pkg, "")
+		half := len(ms) / 2
+		main.Messages = append(main.Messages, ms[:half]...)
+		after = ms[half:]
+		main.Enums = append(main.Enums, es...)
+		svc.Methods = append(svc.Methods, rpcs...)
+	}
+	if len(fr.RPCs) > 0 {
+		svc.Methods = append(svc.Methods, fr.RPCs...)
+	} else if len(fr.Msgs) > 0 {
+		svc.Methods = append(svc.Methods, RPC("Use", q(fr.Msgs[0].Name), pkg+".Res", "POST", "/use"))
+	}
+	main.Services = []*Service{svc}
+
+	names := func(ms []*Message) []string {
+		var out []string
+		for _, m := range ms {
+			out = append(out, m.Name)
+		}
+		return out
+	}
+	entry := func(f *Field) string { return mapEntryName(f.Name) }
+	wrap := M("Wrap", F("x", 1, "string"))
+	var orders []C12NestedOrder
+	inner := wrap // the message that directly encloses the fragment
+	if deep {
+		inner = M("Mid", F("y", 1, "int32"))
+	}
+	inner.Nested = append(inner.Nested, fr.Msgs...)
+	inner.Enums = append(inner.Enums, fr.Enums...)
+	frNames := names(fr.Msgs)
+	cat := func(parts ...[]string) []string {
+		var out []string
+		for _, p := range parts {
+			out = append(out, p...)
+		}
+		return out
+	}
+	switch shape {
+	case "d1-map-before", "d2-inner-before":
+		f := c12MapField(0, pkg)
+		inner.Fields = append(inner.Fields, f)
+		orders = append(orders, C12NestedOrder{scope, cat([]string{entry(f)}, frNames)})
+	case "d1-map-after":
+		f := c12MapField(1, pkg)
+		inner.Fields = append(inner.Fields, f)
+		orders = append(orders, C12NestedOrder{scope, cat(frNames, []string{entry(f)})})
+	case "d1-map-around", "d2-inner-around":
+		f, g := c12MapField(2, pkg), c12MapField(1, pkg)
+		inner.Fields = append(inner.Fields, f, g)
+		orders = append(orders, C12NestedOrder{scope, cat([]string{entry(f)}, frNames, []string{entry(g)})})
+	case "d1-map-mid":
+		// message Pre {...}  map<..> labels;  <fragment>
+		f := c12MapField(3, pkg)
+		inner.Fields = append(inner.Fields, f)
+		inner.Nested = append([]*Message{M("ZqPre", F("p", 1, "string"))}, inner.Nested...)
+		orders = append(orders, C12NestedOrder{scope, cat([]string{"ZqPre", entry(f)}, frNames)})
+	case "d2-outer-before", "d2-outer-after", "d2-both-before":
+	default:
+		panic("c12 map shape " + shape)
+	}
+	if deep {
+		wrap.Nested = []*Message{inner}
+		wrap.Fields = append(wrap.Fields, F("mid", 2, "", Msg(pkg+".Wrap.Mid")))
+		switch shape {
+		case "d2-outer-before":
+			f := c12MapField(0, pkg)
+			wrap.Fields = append(wrap.Fields, f)
+			orders = append(orders, C12NestedOrder{pkg + ".Wrap", []string{entry(f), "Mid"}})
+		case "d2-outer-after":
+			f := c12MapField(2, pkg)
+			wrap.Fields = append(wrap.Fields, f)
+			orders = append(orders, C12NestedOrder{pkg + ".Wrap", []string{"Mid", entry(f)}})
+		case "d2-both-before":
+			f, g := c12MapField(1, pkg), c12MapField(3, pkg)
+			wrap.Fields = append(wrap.Fields, f)
+			inner.Fields = append(inner.Fields, g)
+			orders = append(orders, C12NestedOrder{pkg + ".Wrap", []string{entry(f), "Mid"}},
+				C12NestedOrder{scope, cat([]string{entry(g)}, frNames)})
+		}
+	}
+	main.Messages = append(main.Messages, wrap)
+	main.Messages = append(main.Messages, after...)
+	if surround == "rich" {
+		svc.Methods = append(svc.Methods, RPC("Last", pkg+".Req", pkg+".Res", "POST", "/last"))
+	}
+	c := &C12Case{Req: &Request{ID: id, Files: []*File{main}, Tags: []string{"c12", "nested-map-order"}}, Placement: "nested:" + shape, Surround: surround,
+		Offenders: fr.Off, ClientRule: rule.Client, NestedOrder: orders}
+	if len(rule.ID) < 6 || rule.ID[:6] != "valid:" {
+		c.Rule = rule.ID
+	} else {
+		c.Note = rule.ID
+	}
+	return c
+}
+
+// C12MapOrderCatalogue: every rule-breaking annotation (and the near-miss valid definitions) in a nested
+// message × position of the enclosing messages' map entries. Quick: every rule under the three
+// "entry first" shapes plus one rotating shape; thorough: every rule × every shape.
+func C12MapOrderCatalogue(tier string) []*C12Case {
+	var out []*C12Case
+	n := 0
+	id := func() string { n++; return fmt.Sprintf("c12m%d", n) }
+	add := func(r c12Rule, shape, su, fam string) {
+		c := c12AssembleMap(id(), shape, su, r)
+		c.Family = fam
+		out = append(out, c)
+	}
+	rot := c12MapShapes[3:]
+	for ri, r := range c12Rules() {
+		for si, sh := range c12MapShapes {
+			if tier != "thorough" && si >= 3 && rot[ri%len(rot)] != sh {
+				continue
+			}
+			su := "min"
+			if (ri+si)%5 == 0 {
+				su = "rich"
+			}
+			add(r, sh, su, "nested-map-order")
+		}
+	}
+	for ri, r := range c12SiblingRules() {
+		for si, sh := range c12MapShapes {
+			if tier != "thorough" && si != ri%3 {
+				continue
+			}
+			add(r, sh, "min", "nested-map-order")
+		}
+	}
+	for ri, r := range c12Gaps() {
+		for si, sh := range c12MapShapes {
+			if tier != "thorough" && si != ri%3 && si != 3+ri%len(rot) {
+				continue
+			}
+			add(r, sh, "min", "nested-map-order-gap")
+		}
+	}
+	valids := append(c12Valid(), c12SiblingValid()...)
+	for ri, r := range valids {
+		for si, sh := range c12MapShapes {
+			if tier != "thorough" && si != ri%3 && si != 3+ri%len(rot) {
+				continue
+			}
+			add(r, sh, "min", "nested-map-order-valid")
+		}
 	}
 	return out
 }
